@@ -24,7 +24,7 @@ ASSUMPTIONS = ['values written are unique tokens, so a message identifies the op
                'suppression is permitted, not required: only unjustified silence is a violation; extra messages restating the current state are accepted',
                'preemption happens only at yield points (shim operations, harness boundaries, LINE events of the listed functions)']
 REQUIRED = ['histories', 'multi_actor_histories', 'messages_checked', 'clause_replay', 'clause_no_invention', 'clause_order',
-            'clause_silence', 'clause_recovery', 'preempted_histories', 'pb_runs']
+            'clause_silence', 'clause_recovery', 'preempted_histories', 'pb_runs', 'driver_buffer_histories', 'driver_buffer_refills']
 
 N = {'quick': 220, 'thorough': 20000}
 DEFAULT_OMIT = 0.25
@@ -500,6 +500,129 @@ def run_special_floats(w, r, rng, hist=None):
         r.violation('C05/' + problems[0][1], problems[0][2], case)
 
 
+def run_driver_buffers(w, r, rng, hist=None):
+    """drivers that keep ONE mutable object per parameter (a receive buffer, a list, a dict), hand it over again and again
+    and refill it in place: whatever the node does with such an object (take a copy, refuse it), after every operation the
+    last message an activated connection holds for the parameter says what the cache says - a refill of the driver's
+    buffer alone changes neither"""
+    import json as json_
+    C, D = w.C, w.D
+    KINDS = ['blob', 'blob_bytes', 'arr', 'st', 'tp']
+    if hist is None:
+        hist = {'omit': rng.choice([0, 0.1, 10, None]), 'update_unchanged': rng.choice(['default', 'always', 'never', 0.5]),
+                'ops': [[rng.choice(['read', 'read', 'fill', 'fill', 'assign', 'sleep_short', 'sleep_long']), rng.choice(KINDS)]
+                        for _ in range(rng.randint(5, 14))]}
+    case = {'kind': 'driver-buffers', 'hist': hist}
+    w.env.set_config(omit_unchanged_within=DEFAULT_OMIT)
+    kw = {} if hist['update_unchanged'] == 'default' else {'update_unchanged': hist['update_unchanged']}
+    bufs = {'blob': bytearray(b'\x00\x01'), 'blob_bytes': [b'\x00'], 'arr': [0.0, 1.0], 'st': {'a': 0.0, 'n': 0}, 'tp': [0, [0, 1]]}
+    counter = [0]
+
+    def fill(k):
+        counter[0] += 1
+        u = counter[0]
+        if k == 'blob':
+            bufs[k][:] = bytes([u % 256, (u * 7) % 256, 3][:1 + u % 3])
+        elif k == 'blob_bytes':
+            bufs[k][0] = bytes([u % 256, 5])            # control: a new immutable object each time
+        elif k == 'arr':
+            bufs[k][:] = [float(u)] * (1 + u % 3)
+        elif k == 'st':
+            bufs[k]['a'] = float(u)
+            bufs[k]['n'] = u
+        else:
+            bufs[k][0] = u
+            bufs[k][1][:] = [u] * (u % 3)
+
+    def current(k):
+        return bufs[k][0] if k == 'blob_bytes' else bufs[k]
+
+    class B(C.Readable):
+        blob = C.Parameter('blob', C.BLOBType(0, 16), readonly=False, default=b'', **kw)
+        blob_bytes = C.Parameter('blob', C.BLOBType(0, 16), readonly=False, default=b'', **kw)
+        arr = C.Parameter('array', C.ArrayOf(C.FloatRange(), 0, 4), readonly=False, default=(), **kw)
+        st = C.Parameter('struct', C.StructOf(a=C.FloatRange(), n=C.IntRange()), readonly=False, default={'a': 0.0, 'n': 0}, **kw)
+        tp = C.Parameter('tuple', C.TupleOf(C.IntRange(), C.ArrayOf(C.IntRange(), 0, 3)), readonly=False, default=(0, ()), **kw)
+        omit_unchanged_within = hist['omit']
+
+        def read_value(self):
+            return 0
+
+        def read_blob(self):
+            return current('blob')
+
+        def read_blob_bytes(self):
+            return current('blob_bytes')
+
+        def read_arr(self):
+            return current('arr')
+
+        def read_st(self):
+            return current('st')
+
+        def read_tp(self):
+            return current('tp')
+    node = w.nodes.Node({'m': {'cls': B, 'description': 'x'}}).build()
+    m = node.secnode.modules['m']
+    disp = node.dispatcher
+    problems = []
+
+    def root():
+        obs = w.nodes.Conn('obs')
+        disp.add_connection(obs)
+        disp.handle_request(obs, ('activate', None, None))
+        for i, (kind, k) in enumerate(hist['ops']):
+            if kind == 'sleep_short':
+                D.vsleep(0.01)
+                continue
+            if kind == 'sleep_long':
+                D.vsleep(20)
+                continue
+            try:
+                if kind == 'fill':
+                    fill(k)
+                elif kind == 'read':
+                    getattr(m, 'read_' + k)()
+                else:
+                    setattr(m, k, current(k))
+                outcome = 'ok'
+            except Exception as e:
+                outcome = type(e).__name__
+            r.count('driver_buffer_operations')
+            r.count('driver_buffer_refills' if kind == 'fill' else 'driver_buffer_handovers' + ('_refused' if outcome != 'ok' else ''))
+            for pn in KINDS:
+                pobj = m.parameters[pn]
+                seq = [x for x in obs.out if x[0] in ('update', 'error_update') and x[1] == f'm:_{pn}']
+                if not seq:
+                    problems.append((i, 'driver-buffer/no-message', f'{pn}: nothing at all after activate'))
+                    return
+                last = seq[-1]
+                if (last[0] == 'error_update') != bool(pobj.readerror):
+                    problems.append((i, f'replay-differs-from-cache/driver-buffer/error-state/{pn}',
+                                     f'after op {i} ({kind} {k} -> {outcome}): last message {last[0]}, cache error {pobj.readerror!r}'))
+                    return
+                if pobj.readerror:
+                    continue
+                try:
+                    cached = json_.loads(json_.dumps(pobj.datatype.export_value(pobj.value)))
+                except Exception as e:
+                    problems.append((i, f'driver-buffer/cache-not-exportable/{pn}', f'{type(e).__name__}: {e}'))
+                    return
+                if json_.loads(json_.dumps(last[2][0])) != cached:
+                    problems.append((i, f'replay-differs-from-cache/driver-buffer/{"after-refill" if kind == "fill" else "after-handover"}/{pn}',
+                                     f'after op {i} ({kind} {k} -> {outcome}): last message {last[2][0]!r}, cache {cached!r}'))
+                    return
+    s = D.Sched(('seq',), 0, horizon=2000, max_steps=150000)
+    s.run(root, wall_timeout=60)
+    r.count('driver_buffer_histories')
+    r.case(('driver-buffers', hist['omit'], str(hist['update_unchanged']), tuple(tuple(o) for o in hist['ops'])[:5]), True)
+    if s.status != 'ok' or s.escaped:
+        r.violation('C05/driver-buffers/run-' + (s.status if s.status != 'ok' else 'exception-escapes'), f'{s.escaped[:1]}'[:300], case)
+        return
+    if problems:
+        r.violation('C05/' + problems[0][1], problems[0][2], case)
+
+
 def run_shard(shard):
     r = rec.Recorder(shard)
     rng = random.Random(f'C05/{shard["seed"]}/{shard["idx"]}')
@@ -521,6 +644,8 @@ def run_shard(shard):
             w.run_history(rng, 2, ('rw', 0.3), seed)
     for i in range(max(10, n // 4)):
         run_special_floats(w, r, rng)
+    for i in range(max(10, n // 4)):
+        run_driver_buffers(w, r, rng)
     # bounded-preemption enumeration of one small scenario per shard
     import time
     t_end = time.time() + shard['pb_budget']
@@ -553,6 +678,10 @@ def replay(case):
     w = World(r)
     if case.get('kind') == 'special-floats':
         run_special_floats(w, r, None, hist=case['hist'])
+        w.D.unwatch_all()
+        return r.result()
+    if case.get('kind') == 'driver-buffers':
+        run_driver_buffers(w, r, None, hist=case['hist'])
         w.D.unwatch_all()
         return r.result()
     st = case['strategy']
